@@ -130,7 +130,18 @@ fn await_fn(i: usize, arg: u32) -> (usize, u64) {
     }
 }
 
-/// install fake `site` (0 or 1) for function `i`
+/// one `async_return!` call site shared by the two u32 siblings (site 2)
+fn shared_u32_site() -> FuncPtr {
+    shadow::async_return!(
+        {
+            EVALS.fetch_add(1, Ordering::SeqCst);
+            7900
+        },
+        u32
+    )
+}
+
+/// install fake `site` (0, 1, or 2 = the shared call site, u32 siblings only) for function `i`
 fn fake_fn(inj: &mut InjectorPP, i: usize, site: usize) {
     macro_rules! ev {
         ($v:expr) => {{
@@ -139,6 +150,8 @@ fn fake_fn(inj: &mut InjectorPP, i: usize, site: usize) {
         }};
     }
     match (i, site) {
+        (1, 2) => inj.when_called_async(shadow::async_func!(a_u32(0), u32)).will_return_async(shared_u32_site()),
+        (2, 2) => inj.when_called_async(shadow::async_func!(a_u32_sibling(0), u32)).will_return_async(shared_u32_site()),
         (0, _) => inj.when_called_async(shadow::async_func!(a_unit(0), ())).will_return_async(shadow::async_return!(ev!(()), ())),
         (1, 0) => inj.when_called_async(shadow::async_func!(a_u32(0), u32)).will_return_async(shadow::async_return!(ev!(7001), u32)),
         (1, _) => inj.when_called_async(shadow::async_func!(a_u32(0), u32)).will_return_async(shadow::async_return!(ev!(7002), u32)),
@@ -157,12 +170,18 @@ pub fn run(a: &Args, out: &mut impl Write) {
     silence_panics();
     let mut r = Rng::new(a.seed);
     for _ in 0..a.n {
+        if crate::hist::too_many_timeouts() {
+            break;
+        }
         let nops = r.range(3, 14);
         let mut ops: Vec<String> = Vec::new();
         for _ in 0..nops {
             let i = r.below(6);
             match r.below(8) {
-                0 | 1 | 2 => ops.push(format!("F{}:{}", i, r.below(2))),
+                0 | 1 | 2 => {
+                    let site = if (i == 1 || i == 2) && r.chance(1, 3) { 2 } else { r.below(2) };
+                    ops.push(format!("F{}:{}", i, site))
+                }
                 3 | 4 | 5 | 6 => ops.push(format!("A{}:{}", i, r.below(50))),
                 _ => ops.push("D".to_string()),
             }
